@@ -806,8 +806,16 @@ def shrink(ops, sig):
 
 
 # ------------------------------------------------------------------ Coq emission
+def czb(n: int) -> str:
+    """Z literal; long numbers in hexadecimal (Coq converts long decimal literals very slowly)"""
+    if abs(n) < 10 ** 15:
+        return C.cz(n)
+    return f"(-{hex(-n)})%Z" if n < 0 else f"{hex(n)}%Z"
+
+
 def cq(num: int, den: int) -> str:
-    return f"(Qmake {C.cz(num)} {den}%positive)"
+    d = f"{den}%positive" if den < 10 ** 15 else f"{hex(den)}%positive"
+    return f"(Qmake {czb(num)} {d})"
 
 
 def cflt(h: str) -> str:
@@ -829,7 +837,7 @@ def cstr(s: str) -> str:
 def cval(v) -> str:
     t = v[0]
     if t == "int":
-        return f"(VInt {C.cz(v[1])})"
+        return f"(VInt {czb(v[1])})"
     if t == "bool":
         return f"(VBool {C.cbool(v[1])})"
     if t == "float":
@@ -849,7 +857,7 @@ def cnum(b, default_inf: str) -> str:
     if b is None:
         return f"(NF {default_inf})"
     if b[0] == "int":
-        return f"(NI {C.cz(b[1])})"
+        return f"(NI {czb(b[1])})"
     return f"(NF {cflt(b[1])})"
 
 
@@ -913,7 +921,7 @@ class Emitter:
             return "None"
 
         def b(x):
-            return f"(NI {C.cz(x[1])})" if x[0] == "int" else (f"(NF {cflt(x[1])})" if x[0] == "float" else "(NF FNaN)")
+            return f"(NI {czb(x[1])})" if x[0] == "int" else (f"(NF {cflt(x[1])})" if x[0] == "float" else "(NF FNaN)")
         k = c[0]
         if k == "int":
             return f"(Some (CInt {b(c[1])} {b(c[2])}))"
@@ -1047,7 +1055,7 @@ def main(tier: str) -> int:
                       {}, found_input=False)
         return run.finish()
     rng = random.Random(run.seed * 104729 + 18)
-    n_random = 1500 if tier == "quick" else 24000
+    n_random = 4000 if tier == "quick" else 60000
     cases = []          # list of obs lists
     fails = {}          # signature -> (ops, what)
     hist_ops, hist_exc, set_hist = {}, {}, {}
@@ -1093,7 +1101,7 @@ def main(tier: str) -> int:
 
     # ---- model vs implementation inside coqc
     d = C.scratch_dir(PID)
-    shard = 100 if tier == "quick" else 400
+    shard = 250 if tier == "quick" else 500
     files = []
     for s in range(0, len(cases), shard):
         f = d / f"cases_c18_{s // shard}.v"
